@@ -352,3 +352,27 @@ PROPS['C15'] = dict(
     quick=dict(engines=C15_ENGINES_QUICK + [rapid('^TestC15bStoredValues', 1600, steps=25)]),
     thorough=dict(engines=C15_ENGINES_THOROUGH + [rapid('^TestC15bStoredValues', 40000, shards=14, steps=40, timeout=1500)]),
 )
+
+PROPS['C09'] = dict(
+    claimed=True,
+    level='exploration',
+    level_text="Inputs are generated from the classes the property names (valid 1-4 byte UTF-8, boundary lengths, every kind of "
+               "ill-formed UTF-8, NUL; payload sizes across the remaining-length width boundaries up to 2 MiB, in the thorough tier "
+               "also one byte beyond the 256 MiB packet limit; 0-8 filters; every Config field combination and client identifiers "
+               "of all classes, through InitSession and AdoptSession) and sent through the public API of a client on a healthy "
+               "simulated connection. An independent validity predicate (own RFC 3629 validator, own size arithmetic) decides "
+               "valid/invalid; valid requests must not be refused and the emitted packet must decode, with the strict "
+               "reference decoder, to exactly the requested fields in canonical encoding (and equal the saved record); invalid "
+               "ones must be IsDeny / a constructor error and leave wire, Persistence log, queues and slots untouched.",
+    technique='property-based testing (rapid) with class-based string/size generators; independent validity predicate and strict reference decoder as oracle',
+    rule="TestC09Requests: 1-4 requests of {Publish(Retained), PublishAtLeastOnce(Retained), PublishExactlyOnce(Retained), Subscribe "
+         "x3 levels, Unsubscribe} with names from 19 string classes and payload classes {1-50, around 127/16383/2097151 total, "
+         "empty, nil, (thorough) over the packet limit}; TestC09Connect: Config = clean session x keep-alive {0,1,255,256,65535} "
+         "x user name class x password {none, empty, short, 65535, 65536} x will topic class x will message {nil, empty, short, "
+         "65535, 65536} x retain x levels, client identifier class, via InitSession or AdoptSession. Packets at the 268,435,455-"
+         "byte limit itself are not emitted (memory); the limit is exercised on the denial side only. Non-trivial: an input "
+         "from a boundary or ill-formed class (everything but short valid ASCII).",
+    assumptions=ASSUME_SIM,
+    quick=dict(engines=[rapid('^TestC09Requests', 3200), rapid('^TestC09Connect', 8000)]),
+    thorough=dict(engines=[rapid('^TestC09Requests', 80000, shards=14, timeout=1500), rapid('^TestC09Connect', 200000, shards=14, timeout=1500)]),
+)
